@@ -800,7 +800,8 @@ class RuntimeEngine:
         if result_low is not None:
             return result_low
         elif result_high is not None:
-            if result_high:
+            # a falsy answer ends the loop; the report of the exhaustion itself cannot end it a second time
+            if result_high or isinstance(next_val, StopIteration):
                 return next_val
             raise StopIteration()
         return next_val
